@@ -13,6 +13,7 @@ T15 number / range patterns are compared with min() / max() of the matched numbe
 T16 type definitions: duplicated struct fields are rejected; self-containing struct / enum definitions are rejected before any function body is checked
 T17 const definitions: the declared type is resolved before it is registered; a value provided by a party is registered with one type
 T19 the parser reports a second top-level definition of the same name (const / struct / enum / fn) instead of replacing the first
+T21 number literals (and range bounds) that nothing gave a type are compared with the 32-bit bounds before the function is accepted
 T20 the arity test of a call compares the parameter count with a list holding one entry per written argument (never a list filled under zip)
 T12 a block takes the type of its last statement only (assigned on the `index == len - 1` edge, or afresh for every statement)
 T11 max / min / + / - const expressions are only accepted for consts whose declared type is examined (numeric)
@@ -1507,5 +1508,70 @@ def rule_t20(ctx):
     return res
 
 
+def rule_t21(ctx):
+    """A number literal that nothing gives a type is lowered with 32 bits.  Whether something gives it a type is only known when
+    the whole function body has been checked (re-typing happens afterwards, from the outside in), so before a function is accepted
+    its body has to be walked once more: a literal (or range bound) that is still untyped must be a 32-bit value - otherwise
+    `4294967296 == 0` is accepted and true."""
+    res = RuleResult("T21", "before a function is accepted, number literals that stayed untyped are compared with the 32-bit bounds")
+    f = ctx.find_fn("type_check", "&ast::FnDef<()>", "check.rs")
+    body = ctx.body(f["id"])
+    oks = [b for b in ok_exits(body)]
+    if not oks:
+        raise AnchorMissing("T21: the function checker has no accepting exit")
+    # functions of check.rs that compare the payload of a number literal with a 32-bit bound
+    BOUNDS = {2 ** 32 - 1, 2 ** 31 - 1, 2 ** 31, -(2 ** 31), 2 ** 64 - 2 ** 31}
+    gates = set()
+    for g in ctx.fns.values():
+        if not g.get("mir") or g["sp"][0] != "src/check.rs":
+            continue
+        gb = ctx.body(g["id"])
+        for blk in gb.blocks:
+            for st in blk["stmts"]:
+                if st["k"] == "assign" and st["rv"]["k"] == "binop" and st["rv"]["op"] in ("Lt", "Le", "Gt", "Ge"):
+                    for side, other in (("l", "r"), ("r", "l")):
+                        c = st["rv"][other]
+                        consts = {c.get("val"), c.get("repr")} if c["k"] == "const" else {r[1] for (r, p) in gb.trace_operand(c) if r[0] == "const"}
+                        is_bound = any(x in BOUNDS or (isinstance(x, str) and any(k in x for k in ("u32>::MAX", "i32>::MAX", "i32>::MIN", "4294967295", "2147483647", "2147483648"))) for x in consts)
+                        if is_bound and st["rv"][side]["k"] in ("copy", "move"):
+                            # (a literal of the *typed* tree: the comparison happens after the body was checked)
+                            if any(r[0] == "arg" and "<ast::Type>" in gb.locals[r[1]]["ty"] and any(x in ("as NumUnsigned", "as NumSigned", "as Range") for x in p)
+                                   for (r, p) in gb.deep_sources(st["rv"][side], 3)):
+                                gates.add(g["id"])
+    def reach_without_me(start):
+        """functions reachable from `start` without going through the function checker itself (checking a call checks the
+        callee's body, which ends in the same walk - that is the callee's walk, not this function's)"""
+        seen, work = {start}, [start]
+        while work:
+            x = work.pop()
+            for y in ctx.cg.edges.get(x, ()):
+                if y not in seen and y != f["id"]:
+                    seen.add(y)
+                    work.append(y)
+        return seen
+    walkers = set()
+    for b, t in body.calls():
+        if body.blocks[b]["cleanup"]:
+            continue
+        for c in mir.callee_names(t):
+            if c in ctx.fns and ctx.fns[c]["sp"][0] == "src/check.rs" and c != f["id"]:
+                reach = reach_without_me(c)
+                # it has to walk: the function (or what it calls) is recursive over statements / expressions
+                if reach & gates and any(x in reach_without_me(y) for x in reach for y in ctx.cg.edges.get(x, ()) if y != f["id"]):
+                    walkers.add(b)
+    if not gates or not walkers:
+        res.bad(Finding("T21", f["id"], "untyped number literals are never compared with the 32-bit bounds",
+                        "no walk over the checked function body compares literals that stayed untyped with u32::MAX / i32::MIN / i32::MAX: `pub fn main(x: u8) -> bool { 4294967296 == 0 }` "
+                        "is accepted and true, `let x = 5000000000; a + x` adds 705032704, `for i in 4294967295..4294967298` visits 4294967295, 0, 1", f["sp"]))
+        return res
+    for ob in oks:
+        if any(body.dominates(w, ob) for w in walkers):
+            res.ok({"accepting_exit": "bb%d" % ob, "verdict": "dominated by the walk that range-checks untyped literals"})
+        else:
+            res.bad(Finding("T21", f["id"], "a function can be accepted without the walk over its untyped literals",
+                            "an accepting exit of the function checker is not dominated by the call that range-checks literals which stayed untyped", body.term(ob)["sp"] if body.term(ob) else f["sp"]))
+    return res
+
+
 def run(ctx):
-    return ctx.run_rules([rule_t1, rule_t2, rule_t3, rule_t4, rule_t5, rule_t6, rule_t7, rule_t8, rule_t9, rule_t10, rule_t11, rule_t12, rule_t13, rule_t14, rule_t15, rule_t16, rule_t17, rule_t19, rule_t20])
+    return ctx.run_rules([rule_t1, rule_t2, rule_t3, rule_t4, rule_t5, rule_t6, rule_t7, rule_t8, rule_t9, rule_t10, rule_t11, rule_t12, rule_t13, rule_t14, rule_t15, rule_t16, rule_t17, rule_t19, rule_t20, rule_t21])
